@@ -95,7 +95,7 @@ EvRwSignaled == /\ E.e = "rw.signaled" /\ Consume /\ Stutter /\ ppc[E.p] = "idle
 \* ---------------------------------------------------------------- Shutdown
 EvSdEnter == /\ E.e = "sd.enter" /\ Consume /\ Stutter /\ sdgo' = sdgo + 1 /\ Same(<<pn, pgo, svgo, svn>>)
 EvSdRet   == /\ E.e = "sd.ret" /\ Consume /\ Stutter /\ sdgo > 0 /\ sdgo' = sdgo - 1 /\ Same(<<pn, pgo, svgo, svn>>)
-SilentSd  == /\ \/ sdgo > 0 /\ SdCas
+SilentSd  == /\ \/ (sdgo > 0 \/ svpc = "failwait") /\ SdCas
                 \/ ClBroadcast \/ ClConnClose \/ ClCloseInCh \/ SdWait \/ SdClear \/ SdStopped
              /\ Same(aux)
 EvClNil   == /\ E.e = "cl.nil" /\ Consume /\ ClNil /\ Same(<<pn, pgo, sdgo, svgo, svn>>)
@@ -109,10 +109,13 @@ EvSdPin == /\ E.e \in DOMAIN SdPin /\ Consume /\ Stutter /\ sdpc = SdPin[E.e] /\
 EvServeGo  == /\ E.e = "serve.go" /\ Consume /\ Stutter /\ svgo' = TRUE /\ svn' = svn + 1 /\ Same(<<pn, pgo, sdgo>>)
 EvServeRet == /\ E.e = "serve.ret" /\ Consume /\ Stutter /\ Same(<<pn, pgo, sdgo, svgo, svn>>)
 SilentSv   == /\ \/ svgo /\ SvCas /\ svgo' = FALSE
-                 \/ (SvInit \/ SvStarted \/ SvListenEnd) /\ Same(svgo)
+                 \/ (SvInit \/ SvStarted \/ SvSubscribed \/ SvSubFail \/ SvListenEnd) /\ Same(svgo)
               /\ Same(<<l, pn, pgo, sdgo, svn>>)
-SvPin == [x \in {"sv.init", "sv.started"} |-> IF x = "sv.init" THEN "started" ELSE "listen"]
+SvPin == [x \in {"sv.init", "sv.started"} |-> IF x = "sv.init" THEN "started" ELSE "subscribing"]
 EvSvPin == /\ E.e \in DOMAIN SvPin /\ Consume /\ Stutter /\ svpc = SvPin[E.e] /\ Same(<<pn, pgo, sdgo, svgo, svn>>)
+\* sv.subscribed(new = the subscriptions failed)
+EvSvSubscribed == /\ E.e = "sv.subscribed" /\ Consume /\ Stutter /\ svpc = (IF E.new THEN "failwait" ELSE "listen")
+                  /\ Same(<<pn, pgo, sdgo, svgo, svn>>)
 \* a Serve call (number k) that leaves its listener loop / returns is the current one or an overtaken one
 EvSvListenEnd == /\ E.e = "sv.listenend" /\ Consume /\ Stutter /\ (E.k = svn => svpc = "wait")
                  /\ Same(<<pn, pgo, sdgo, svgo, svn>>)
@@ -123,7 +126,7 @@ TraceNext ==
     \/ EvWkPark \/ EvWkExit \/ EvPqTake \/ EvWkWake \/ EvWkPop \/ EvRetire \/ EvCbStart
     \/ EvRwEnter \/ EvRwChecked \/ EvRwRefused1 \/ EvRwEnq \/ EvRwClosing \/ EvRwSignaled
     \/ EvSdEnter \/ EvSdRet \/ EvClNil \/ EvSdPin
-    \/ EvServeGo \/ EvServeRet \/ EvSvPin \/ EvSvListenEnd \/ EvSvWaited
+    \/ EvServeGo \/ EvServeRet \/ EvSvPin \/ EvSvSubscribed \/ EvSvListenEnd \/ EvSvWaited
     \/ \E p \in Producers : SilentRwCheck(p) \/ SilentRwSignal(p)
     \/ SilentSd \/ SilentSv
 
